@@ -36,6 +36,10 @@ func init() {
 }
 
 func runC09(p *Prog, r *Report) {
+	defer func() {
+		mapOnlySetTrue(p, r, "D3-surfaced", "walkContext", "foundInv", "extractor/filesystem", "the 'extractor found inventory' flag is overwritten per file instead of being sticky: an extractor that failed on its last file is reported failed although it produced results from others (partially succeeded)")
+		c09IteratorForwardsError(p, r, "D2-second-call")
+	}()
 	r.Rule("D1-fatal-only-on-request", "file-system errors abort the walk only under errorOnFSErrors")
 	r.Rule("D1-fatal-on-request", "with errorOnFSErrors a traversal failure returns a non-nil error wrapping it")
 	r.Rule("D2-second-call", "listing/stat failures are reported to the callback with the error")
